@@ -9,7 +9,7 @@ import os, re, sys, glob
 VERIF = os.path.dirname(os.path.dirname(os.path.abspath(__file__)))
 sys.path.insert(0, os.path.join(VERIF, 'tools'))
 import rsx
-from msgparse_table import BOUNDS, INVARIANTS, HELPERS, NO_LINEAR, HELPER_COUNT
+from msgparse_table import BOUNDS, INVARIANTS, HELPERS, NO_LINEAR, HELPER_COUNT, SPECS
 REPO = os.environ.get('VERIF_REPO', '/repo')
 
 
@@ -132,6 +132,8 @@ def gen(t):
     w('//@include inc/mparser_api.vu')
     w('//@types %s %s' % (f, T))
     w('//@fieldimpls' + ('' if t in NO_LINEAR else ' nf'))
+    for sp in SPECS.get(t, []):
+        w(sp)   # spec vocabulary of the bounds (typed parameters: the element type of a `Vec::new()` local is inferred from them)
     if re.search(r'(?<![.A-Za-z0-9_])parse_repeated_field\s*(::\s*<[^()]*>)?\s*\(', body_nc):
         # the free helper of src/parser/utils.rs is called: it comes with its own contract, proved in this unit
         w('//@include inc/mparser_utils.vu')
